@@ -1,6 +1,6 @@
 (* C07  Spatial fields respect physical bounds and phase equilibrium (1D / 0D step models). *)
 From Coq Require Import Reals ZArith List Bool.
-From Snow Require Import Num NumR Sn1D SnProofs Sn2D Sn2DProofs Sn2DMax.
+From Snow Require Import Num NumR Sn1D SnProofs Sn2D Sn2DProofs Sn2DMax SnSolidMax.
 Import ListNotations.
 Local Open Scope R_scope.
 
@@ -36,9 +36,9 @@ Theorem C07_ice_temperature_relation :
 Proof. intros. apply ice_relation; assumption. Qed.
 Print Assumptions C07_ice_temperature_relation.
 
-(* solidification stage, interior points: a convex combination of the point and its neighbours under the
-   per-point conditions (non-negative diagonal weight, bounded conductivity variation); PARTIAL: the two
-   boundary points of the solidification stage and the 2D model are covered by the oracle only *)
+(* solidification stage, one point: a convex combination of the point and its neighbours under the
+   per-point conditions (non-negative diagonal weight, bounded conductivity variation); the whole step and whole runs
+   follow below (C07_1D_solid_step_max_principle, C07_1D_run_bounds) *)
 Theorem C07_solid_interior_point_partial :
   forall (P : @p1d R) a b d la lb ld w lo hi,
   let F := q_dt P / (cp_of Rops P w * q_rho P) / (q_dz P * q_dz P) * (1 / BETA_of Rops P b w) in
@@ -74,3 +74,36 @@ Example C07_2D_hypotheses_nonvacuous :
   /\ 0 <= s_K P * s_dz P / s_lam0 P <= 1 /\ 0 <= s_Kw P * s_dr P / s_lam0 P <= 1
   /\ shape [[0; 1; 0]; [1; 1; 1]; [0; 1; 0]] 3 3 /\ gbounded 3 3 0 1 [[0; 1; 0]; [1; 1; 1]; [0; 1; 0]].
 Proof. exact max2d_hypotheses_nonvacuous. Qed.
+
+(* 1D solidification stage, the WHOLE step (bottom ghost point, interior, top): under conditions stated uniformly over the
+   admissible temperatures [lo,hi] and ice fractions [wlo,whi] every new temperature stays in [lo,hi] *)
+Theorem C07_1D_solid_step_max_principle :
+  forall (P : @p1d R) (lo hi wlo whi : R), q_dz P <> 0 -> q_rho P <> 0 ->
+  (forall b w, okT lo hi b -> okW wlo whi w ->
+     0 <= q_dt P / (cp_of Rops P w * q_rho P) / (q_dz P * q_dz P) * (1 / BETA_of Rops P b w)
+     /\ 2 * (q_dt P / (cp_of Rops P w * q_rho P) / (q_dz P * q_dz P) * (1 / BETA_of Rops P b w)) * lam_of Rops P w <= 1
+     /\ cp_of Rops P w <> 0 /\ BETA_of Rops P b w <> 0) ->
+  (forall w w' w'', okW wlo whi w -> okW wlo whi w' -> okW wlo whi w'' -> Rabs (lam_of Rops P w' - lam_of Rops P w'') <= 4 * lam_of Rops P w) ->
+  (forall w, okW wlo whi w -> lam_of Rops P w <> 0 /\ 0 <= q_K P * q_dz P / lam_of Rops P w <= 1) ->
+  forall T W Tsh, (2 <= length T)%nat -> length W = length T -> List.Forall (okT lo hi) T -> List.Forall (okW wlo whi) W -> okT lo hi Tsh ->
+  List.Forall (okT lo hi) (fst (solid_step Rops P T W Tsh 0)).
+Proof. intros. apply (solid_step_max_principle P lo hi wlo whi); assumption. Qed.
+Print Assumptions C07_1D_solid_step_max_principle.
+
+(* 1D, whole runs: ANY sequence of cooling steps, nucleation and solidification steps (shelf temperatures in [lo,hi], no
+   evaporative flux) started from a field in [lo,hi] keeps every temperature in [lo,hi] and every ice fraction in
+   [0, water fraction]; hi is at least T_eq_l (post-nucleation temperatures lie strictly between the nucleation
+   temperature and T_eq_l).  All hypotheses are inequalities between the constants of the run. *)
+Theorem C07_1D_run_bounds :
+  forall (P : @p1d R) (lo hi cmin lmin lmax : R),
+  0 < q_dz P -> 0 < q_dt P -> 0 < q_rho P -> 0 < q_lam0 P -> 0 <= q_K P ->
+  0 <= q_alpha0 P * q_dt P / (q_dz P * q_dz P) -> 2 * (q_alpha0 P * q_dt P / (q_dz P * q_dz P)) <= 1 ->
+  q_alpha0 P * q_dt P / (q_dz P * q_dz P) * (1 + q_K P * q_dz P / q_lam0 P) <= 1 ->
+  q_mass P = q_mw P + q_ms P -> 0 < q_mw P -> 0 < q_ms P -> 0 < q_kf P -> 0 < q_Ms P -> 0 < q_cp0 P -> 0 < q_Dh P -> 0 < q_V P ->
+  q_Teql P = q_Tm P - q_ms P * (q_kf P / q_Ms P) / q_mw P -> q_Teql P <= hi ->
+  0 < cmin -> cmin <= cp_of Rops P 0 -> cmin <= cp_of Rops P (q_mw P / q_mass P) ->
+  0 < lmin -> lmin <= lam_of Rops P 0 <= lmax -> lmin <= lam_of Rops P (q_mw P / q_mass P) <= lmax ->
+  2 * q_dt P * lmax <= cmin * q_rho P * (q_dz P * q_dz P) -> lmax - lmin <= 4 * lmin -> q_K P * q_dz P <= lmin ->
+  forall ops s, Inv P lo hi s -> List.Forall (shelf_ok lo hi) ops -> Inv P lo hi (fold_left (apply1 P) ops s).
+Proof. intros. apply (run_bounds_from_constants P lo hi cmin lmin lmax); assumption. Qed.
+Print Assumptions C07_1D_run_bounds.
